@@ -304,17 +304,39 @@ def r5_visitors(ctx):
     f = ctx.func('error_handler', 'err_ele.accept')
     ok = [A.call_target(c)[1] for c in A.calls_in(f)] == ['visit_ele']
     yield Ob('error_handler:err_ele.accept visits the element', ok, ctx.floc(f), '' if ok else 'changed')
-    # element errors recorded on ISA/GS/ST nodes are not visited by accept() -> they must be folded in by the __get_*_errors helpers
+    # element errors recorded on ISA/GS/ST nodes are not visited by accept() -> they must be folded in by the __get_*_errors
+    # helpers: each helper decided by constant propagation - the node's own error codes are in the answer, and an element
+    # error at some position of the header / trailer adds a code to it
+    from ..absint import run_function as _rf, helper_oracles as _ho5, NotClosedTest as _NC5
     for mod, cname in (('error_997', 'error_997_visitor'), ('error_999', 'error_999_visitor')):
         cls = ctx.cls(mod, cname)
+        hf5 = _ho5(ctx, mod)
         for f in cls.body:
             if isinstance(f, ast.FunctionDef) and f.name.endswith(('__get_gs_errors', '__get_st_errors', '__get_isa_errors')):
-                nm = f.name.split('__get_')[1]
-                var = f.args.args[1].arg
-                ok = any(isinstance(n, ast.For) and norm(n.iter) == var + '.elements' for n in ast.walk(f)) and \
-                    any(norm(n).startswith('[err[0] for err in %s.errors]' % var) for n in ast.walk(f) if isinstance(n, ast.ListComp))
+                level = f.name.split('__get_')[1].split('_')[0].upper()
+                own = {'ISA': '001', 'GS': '4', 'ST': '4'}[level]
+                trailer = {'ISA': 'IEA', 'GS': 'GE', 'ST': 'SE'}[level]
+
+                def answer(errors, elements, f=f):
+                    node = A.Model('err_' + level.lower(), errors=tuple(errors), elements=tuple(elements), child_err_count=lambda: 0)
+                    try:
+                        r = _rf(ctx.cfg(f), f, [None, node], hf5, env=dict(A.module_constants(ctx.mod(mod).tree)))
+                    except (_NC5, A.NotClosed) as e2:
+                        raise AnalysisError('%s.%s cannot be decided: %s' % (cname, f.name, e2))
+                    return tuple(r) if isinstance(r, (tuple, list)) else r
+                base = answer([(own, 'm')], [])
+                ok_own = isinstance(base, tuple) and own in base
+                grows = False
+                for sid in (level, trailer):
+                    for pos in range(1, 17):
+                        ele = A.Model('ele', ele_pos=pos, subele_pos=None, errors=(('7', 'Invalid value in (%s%02d)' % (sid, pos), 'x'),))
+                        got = answer([(own, 'm')], [ele])
+                        if isinstance(got, tuple) and set(got) - set(base or ()):
+                            grows = True
+                ok = ok_own and grows
                 yield Ob('%s:%s.%s folds in errors and element errors' % (mod, cname, f.name), ok, ctx.loc(mod, f),
-                         '' if ok else 'helper no longer reads both %s.errors and %s.elements' % (var, var))
+                         '' if ok else ('the node\'s own error code %s is not in the answer %s' % (own, base) if not ok_own else
+                                        'no element error of the %s / %s segment adds a code to the answer: element errors recorded on the loop node never reach the acknowledgement' % (level, trailer)))
 
 
 # --------------------------------------------------------------------------- R6
@@ -836,7 +858,17 @@ def r12_addressed_to_sender(ctx):
                      % (key[0], key[1], reads or (norm(e) if e is not None else 'nothing')))
 
 
+def r17_false_means_reported(ctx):
+    """the verdict is false only for a reported error: every way an element / composite / segment validator answers False
+    passes a report first (C15.R2, shared) - a silent False makes the verdict disagree with an error count of zero and an
+    acknowledgement that accepts"""
+    from . import c15
+    for o in c15.r2_false_implies_reported(ctx):
+        yield o
+
+
 RULES = [
+    Rule('C05.R17', 'shared with C15.R2: a validator answers False only after a report', r17_false_means_reported, floor=5),
     Rule('C05.R1', 'verdict True only through valid and error-count-zero edges; other exits False', r1_verdict, floor=3),
     Rule('C05.R2', 'sibling "has errors" deciders consult every stored evidence field', r2_evidence, floor=6),
     Rule('C05.R3', 'reader error tags/arity = error-handler dispatch', r3_tags, floor=3),
